@@ -253,6 +253,42 @@ def run_case(ctx, kind, rng, idx):
                 ctx.violation('partition_list.wrong', 'lengths %s' % lens)
         except Exception as e:  # noqa
             ctx.crash('partition_helpers.raised', e)
+    # ---- a metric with a cut-off: +inf beyond it.  A frame out of reach of
+    # every center still gets a valid label (all centers are equally near)
+    # and distance inf; the heap is dirtied first so that memory a routine
+    # forgets to initialise does not happen to be zero
+    if idx % 8 == 5:
+        Xc = np.asarray(X, dtype=np.float64) + 1e3 * rng.integers(
+            0, 3, size=(n, 1))
+        kc_ = min(int(rng.integers(1, 4)), n)
+        cen_c = [Xc[i].copy() for i in rng.choice(n, kc_, replace=False)]
+        cutv = float(np.abs(Xc - Xc.mean(axis=0)).max()) * 0.05 + 1.0
+
+        def cut_metric(A, y):
+            d_ = np.sqrt(((np.asarray(A, dtype=float) - np.asarray(
+                y, dtype=float)) ** 2).sum(axis=1))
+            return np.where(d_ > cutv, np.inf, d_)
+        for _ in range(3):
+            junk = np.full(n, -7777, dtype=np.int64)
+            del junk
+        try:
+            a_c, d_c = util.assign_to_nearest_center(Xc, cen_c, cut_metric)
+            a_c, d_c = np.asarray(a_c), np.asarray(d_c, dtype=float)
+            Dc_ = np.stack([cut_metric(Xc, c) for c in cen_c], axis=1)
+            ctx.count('cutoff_metric_assignments')
+            if np.any(a_c < 0) or np.any(a_c >= kc_):
+                ctx.violation('assign.cutoff-metric.label-range',
+                              'labels %s for %d centers (frames out of reach '
+                              'of every center: %d)' % (
+                                  np.unique(a_c).tolist()[:6], kc_,
+                                  int(np.isinf(Dc_).all(axis=1).sum())))
+            elif not np.array_equal(d_c, Dc_.min(axis=1)) or np.any(
+                    Dc_[np.arange(n), a_c] != Dc_.min(axis=1)):
+                ctx.violation('assign.cutoff-metric.not-nearest',
+                              'labels / distances are not the minimum over '
+                              'the centers under a metric with a cut-off')
+        except Exception as e:  # noqa
+            ctx.crash('assign.cutoff-metric.raised', e)
     # ---- predict ---------------------------------------------------------
     if idx % 3 == 0:
         Y, _ = cc.gen_data(rng, nmax=30, dtype=X.dtype.type)
